@@ -150,3 +150,25 @@ def oracle_struct_mirror(R, tier, seed):
                 _fail(O, "C07:SpatialBeamAlone:%s-not-mirror-covariant" % sorted(bad)[0], desc, errors=bad, mesh=mesh.tolist(), loads=loads.tolist())
         else: O["ok"] += 1
         R.mark("c07s", it)
+
+
+def oracle_wingbox_geometry_mirror(R, tier, seed):
+    """WingboxGeometry (streamwise chords, FEM chords, FEM twists) of the mirror image = the reversed arrays, for
+    twisted, swept, cambered meshes with 2..4 chordwise points (the theorem C07_wingbox_geometry_mirror on the code)"""
+    from openaerostruct.structures.wingbox_geometry import WingboxGeometry
+    O = R.oracle("WingboxGeometry.mirror")
+    rng = gen.stable_rng(seed, "c07wg")
+    for it in range(4 if tier == "quick" else 12):
+        kind = ("left", "full")[it % 2]
+        nx = int(rng.choice([2, 3, 4])); ny = int(rng.choice([3, 5]))
+        mesh = gen.rand_mesh(rng, nx, ny, kind)
+        outs = []
+        for m in (mesh, mirror_mesh(mesh)):
+            surf = gen.wingbox_surface(m, symmetry=(kind != "full"))
+            o, _, _ = core.run_comp(WingboxGeometry(surface=surf), {"mesh": m}, outputs=["streamwise_chords", "fem_chords", "fem_twists"], want_J=False)
+            outs.append(o)
+        bad = {k: _rel(outs[1][k], outs[0][k][::-1]) for k in outs[0] if _rel(outs[1][k], outs[0][k][::-1]) > 1e-12}
+        O["cases"] += 1
+        if bad: _fail(O, "C07:WingboxGeometry:%s-not-mirror-invariant" % sorted(bad)[0], {"kind": kind, "nx": nx, "ny": ny, "seed": seed, "it": it}, errors=bad, mesh=mesh.tolist())
+        else: O["ok"] += 1
+        R.mark("c07wg", it)
